@@ -29,7 +29,7 @@ def one(rec, hub, seed, tier, i):
     with dsm.quiet():
         if which == 0:
             cfg = dsm.make_config(fd, rng, tier)
-            s = dsm.make_stock(fd, cfg, "InflowDrivenDSM", inflow=dsm.driver_values(rng, cfg["shape"], "positive"))
+            s = dsm.make_stock(fd, cfg, "InflowDrivenDSM", inflow=dsm.driver_values(rng, cfg["shape"], "positive" if rng.random() < 0.8 else "scaled:positive"))
             s.compute()
         elif which == 1:
             cfg = dsm.make_config(fd, rng, tier)
@@ -41,7 +41,7 @@ def one(rec, hub, seed, tier, i):
                 rec.skip(S.M09, "no solvable configuration found")
                 return
             s = dsm.make_stock(fd, cfg, "StockDrivenDSM", solver="manual" if which == 2 else "lapack", lm=lm,
-                               stock=dsm.driver_values(rng, cfg["shape"], str(rng.choice(["stock", "growing"]))))
+                               stock=dsm.driver_values(rng, cfg["shape"], str(rng.choice(["stock", "growing", "scaled:growing"]))))
             s.compute()
         if hasattr(s, "lifetime_model") and rng.random() < 0.4:
             # same objects, other parameters: the identities must hold for the recomputed stock as well
